@@ -67,13 +67,16 @@ def build(run):
             run.function(getattr(SRT, nm))
 
     # ------------------------------------------------------------------ (1) comparator laws on proxies
-    def laws(name, cmp, mk3):
-        """mk3() -> three fresh symbolic objects"""
+    def laws(name, cmp, mk3, same=None):
+        """mk3() -> three fresh symbolic objects; same(A, B) -> do the identity fields agree (separation law: cmp == 0 only then)"""
         def thunk():
             n = 0
-            for what, fn in (("antisymmetry", lambda: (lambda A, B, Cc: (cmp(A, B), cmp(B, A)))(*mk3())),
-                             ("transitivity", lambda: (lambda A, B, Cc: (cmp(A, B), cmp(B, Cc), cmp(A, Cc)))(*mk3())),
-                             ("reflexivity", lambda: (lambda A, B, Cc: (cmp(A, A),))(*mk3()))):
+            checks = [("antisymmetry", lambda: (lambda A, B, Cc: (cmp(A, B), cmp(B, A)))(*mk3())),
+                      ("transitivity", lambda: (lambda A, B, Cc: (cmp(A, B), cmp(B, Cc), cmp(A, Cc)))(*mk3())),
+                      ("reflexivity", lambda: (lambda A, B, Cc: (cmp(A, A),))(*mk3()))]
+            if same is not None:
+                checks.append(("separation", lambda: (lambda A, B, Cc: (cmp(A, B), 0 if same(A, B) else 1))(*mk3())))
+            for what, fn in checks:
                 paths, complete = explore(fn, lambda: ())
                 if not complete:
                     return undecided(f"{name}: path cap in {what}")
@@ -84,7 +87,8 @@ def build(run):
                     n += 1
                     if any(x not in (-1, 0, 1) for x in r):
                         return violated(f"{name}: comparator returned {r}, not a three-way result", reproduced=False, backend="z3")
-                    ok = (r[0] == -r[1]) if what == "antisymmetry" else ((not (r[0] <= 0 and r[1] <= 0)) or r[2] <= 0) if what == "transitivity" else r[0] == 0
+                    ok = (r[0] == -r[1]) if what == "antisymmetry" else ((not (r[0] <= 0 and r[1] <= 0)) or r[2] <= 0) if what == "transitivity" else \
+                        (r[0] != 0 or r[1] == 0) if what == "separation" else r[0] == 0
                     if not ok:
                         s = z3.Solver()
                         s.add(*p.pc)
@@ -97,18 +101,37 @@ def build(run):
             return proved("z3(path-exhaustive)", vcs=n, sample=f"{name}: antisymmetric, transitive and reflexive on {n} feasible paths (all field values)")
         run.add(f"comparator-laws/{name}", thunk, kind="proof")
 
+    class _Counted:           # stand-in for a counted terminal: private field and public accessor, as the real classes have
+        def __init__(self, c):
+            self._count = c
+
+        def count(self):
+            return self._count
+
+    class _Arg:
+        def __init__(self, n_, p_):
+            self._number, self._part = n_, p_
+
+        def number(self):
+            return self._number
+
+        def part(self):
+            return self._part
+
     def counted3():
-        return [types.SimpleNamespace(_count=SymInt(n)) for n in "abc"]
+        return [_Counted(SymInt(n)) for n in "abc"]
+    same_count = lambda A, B: A._count == B._count                                                    # noqa: E731
+    same_arg = lambda A, B: (A._number == B._number) and (A._part is None or A._part == B._part)      # noqa: E731
     contracts = {}
-    laws("_cmp_coefficient", SRT._cmp_coefficient, counted3)
+    laws("_cmp_coefficient", SRT._cmp_coefficient, counted3, same_count)
     contracts[SRT._cmp_coefficient] = 1
-    laws("_cmp_label", SRT._cmp_label, counted3)
+    laws("_cmp_label", SRT._cmp_label, counted3)       # labels (like free-index numbers) are deliberately not separated
     contracts[SRT._cmp_label] = 1
     if hasattr(SRT, "_cmp_constant"):
-        laws("_cmp_constant", SRT._cmp_constant, counted3)
+        laws("_cmp_constant", SRT._cmp_constant, counted3, same_count)
         contracts[SRT._cmp_constant] = 1
-    laws("_cmp_argument(int parts)", SRT._cmp_argument, lambda: [types.SimpleNamespace(_number=SymInt(n + "n"), _part=SymInt(n + "p")) for n in "abc"])
-    laws("_cmp_argument(no parts)", SRT._cmp_argument, lambda: [types.SimpleNamespace(_number=SymInt(n + "n"), _part=None) for n in "abc"])
+    laws("_cmp_argument(int parts)", SRT._cmp_argument, lambda: [_Arg(SymInt(n + "n"), SymInt(n + "p")) for n in "abc"], same_arg)
+    laws("_cmp_argument(no parts)", SRT._cmp_argument, lambda: [_Arg(SymInt(n + "n"), None) for n in "abc"], same_arg)
     contracts[SRT._cmp_argument] = 1
     for lens in itertools.product((1, 2), repeat=3):
         for kinds in itertools.product("fi", repeat=sum(lens)):
@@ -239,6 +262,8 @@ def build(run):
                 # literals that a comparator could conflate: same real part, repr order != numeric order, sign, int vs float
                 C.ComplexValue(1 + 2j), C.ComplexValue(1 - 2j), C.ComplexValue(0.5 + 1j), C.IntValue(9), C.IntValue(10), C.IntValue(-2),
                 C.FloatValue(-0.5), C.FloatValue(2.5)]
+        # arguments that differ only in their part (blocks of a MixedFunctionSpace) or only in their number
+        scal += [C.Argument(V, 3, 0), C.Argument(V, 3, 1), C.Argument(V, 4, 0), C.Argument(V, 2, None), C.Argument(V, 3, 2)]      # (one number: parts all None or all int)
         zf = [C.Product(C.ComplexValue(1 + 2j), f), C.Product(C.ComplexValue(1 - 2j), f), C.Product(C.IntValue(9), g), C.Product(C.IntValue(10), g)]
         open_idx = [A[i, 0], A[j, 1], A[i, 1], A[0, i], A[1, j], u[i], w[j]]       # operands with free indices: differ in a fixed index after / before a free one
         lvl1 = list(zf)
@@ -255,6 +280,8 @@ def build(run):
         lvl1 += [C.Division(a_, twice()) for a_ in (f, g, c2, x[0])] + [C.Division(twice(), a_) for a_ in (f, g)] + [ufl.conditional(ufl.lt(twice(), c2), a_, twice()) for a_ in (f, g)]
         tens += [ufl.as_vector([twice(), a_]) for a_ in (f, g, c2)] + [ufl.as_vector([a_, twice()]) for a_ in (f, g)]
         tens += [ufl.as_tensor(A[i, 0], (i,)), ufl.as_tensor(A[j, 1], (j,)), ufl.as_tensor(A[0, i], (i,))]
+        tens += [C.Argument(W, 5, 0), C.Argument(W, 5, 1), C.Argument(W, 6, 1)]      # (one number and part: one space)
+        lvl1 += [C.Product(C.IntValue(2), C.Argument(V, 3, 0)), C.Product(C.IntValue(2), C.Argument(V, 3, 1))]
         return [e for e in scal + lvl1 + open_idx if isinstance(e, C.Expr)], tens
 
     def tokens(e):
